@@ -463,6 +463,13 @@ func (c *Conn) prepareDualStackServerHandshakeStart(ctx context.Context) (handsh
 		flight12: dtlsflight12.Flight0,
 		flight13: dtlsflight13.Flight0,
 		fsmState: dtlshandshake.StatePreparing,
+		// The ClientHello was consumed while negotiating the version, before
+		// the FSM existed. Without this nudge flight 0 only looks at it when the
+		// client retransmits, and a dual-stack client does not retransmit
+		// before it has an answer: two dual-stack endpoints never connect.
+		postSetup: func(ctx context.Context) {
+			c.primeHandshakeRecv(ctx)
+		},
 	}, nil
 }
 
